@@ -21,12 +21,22 @@ from . import c01, shared
 
 
 def check(repo: Repo, R) -> None:
-    slice_inner(repo, R, "C03")
-    inner_properties(repo, R)
-    c01.list_slice_index_maps(repo, R, "C03.4-nested-slice-index-maps")
-    sliceable_kinds(repo, R)
-    concat_width(repo, R)
-    slice_entry(repo, R)
+    R.run(slice_inner, repo, R, "C03")
+    R.run(inner_properties, repo, R)
+    R.run(c01.list_slice_index_maps, repo, R, "C03.4-nested-slice-index-maps")
+    R.run(sliceable_kinds, repo, R)
+    R.run(concat_width, repo, R)
+    R.run(slice_entry, repo, R)
+    # "resolving nested slices and concatenations down to signal-level slices does not change the selected bit sequence":
+    # flattening a concatenation keeps head before tail, and what the resolver leaves unresolved (a reversed or strided
+    # slice directly on a signal) is refused by the exporter rather than written as a forward range
+    from . import c02 as _c02
+    from . import shared as _sh
+    R.run(c01.slice_resolution, repo, _sh.Retag(R, lambda r, k: "C03.9-resolution-keeps-bit-sequence" if any(x in k for x in ("concat-order", "::tail-", "flat-case")) else None,
+                                               "flattening a nested concatenation permutes its parts: Concat(Concat(a, b), c) is exported as c, a, b (same width, nothing notices)"))
+    R.run(_c02.export_slice_guards, repo, _sh.Retag(R, lambda r: "C03.9-resolution-keeps-bit-sequence",
+                                                   "a reversed slice the resolver left on its signal (`a[2:0:-1]`) is exported as the ascending range a[1],a[2]: the selected bits are silently reversed"),
+          noreturn_set(repo), "C02.4-guard-inventory")
     R.floor("C03.1-int-index", 3)
     R.floor("C03.2-slice-index", 4)
     R.floor("C03.3-one-inner", 4)
@@ -103,8 +113,10 @@ def slice_inner(repo: Repo, R, prefix: str):
 
     def reached(assume):
         prem = [(shared.parse_cond(itest), True)] + [(shared.parse_cond(t), p_) for t, p_ in assume]
-        for r in shared.raising_leaves(int_if):
-            pcs = [(X(t), p_) for t, p_ in path_conditions(fi.node, r)]
+        n_outer = len(path_conditions(fi.node, int_if))
+        for r in shared.raising_leaves(ast.Module(int_if.body, [])):
+            # what decides inside the integer arm (the conditions the arm itself is under say nothing about bounds)
+            pcs = [(X(t), p_) for t, p_ in path_conditions(fi.node, r)[n_outer + 1:]]
             if shared.conds_imply(prem, pcs) is True:
                 return True
         return False
@@ -119,23 +131,39 @@ def slice_inner(repo: Repo, R, prefix: str):
     R.check(upper_ok and lower_ok, r_int, key_of(fi, "int-bounds"), fi.at(int_if),
             f"integer index rejected when `{idx} >= {W}`: {upper_ok}; and when `{idx} < -{W}`: {lower_ok} (W = parent width)",
             why="`s[-5]` on a 4-bit signal is accepted and names bit -1; the '<' side is handled, the '>' side is not (or vice versa)")
-    # normalisation of negative indices: index += W under index < 0
-    norm_ok = False
-    for n in ast.walk(int_if):
-        if isinstance(n, ast.If) and au.cmp_norm(n.test) == au.cmp_norm(ast.parse(f"{idx} < 0", mode="eval").body):
-            for st in n.body:
-                if isinstance(st, ast.AugAssign) and isinstance(st.op, ast.Add) and ast.unparse(st.target) == idx and W is not None and ast.unparse(X(st.value)) == W:
-                    norm_ok = True
-                if isinstance(st, ast.Assign) and ast.unparse(st.targets[0]) == idx and W is not None and au.poly_eq(X(st.value), ast.parse(f"{idx} + {W}", mode="eval").body):
-                    norm_ok = True
+    # normalisation of negative indices and the resulting record, per path: i < 0 -> (bot, top) = (i + W, i + W + 1);
+    # otherwise (i, i + 1); step = width = 1
+    ctor = [c for c, _b in pat.find("SliceInner(*$_)", ast.Module(int_if.body, []))]
+    norm_ok = c_ok = False
+    if ctor and W is not None:
+        kw = {k.arg: k.value for k in ctor[0].keywords}
+        if set(kw) >= {"top", "bot", "step", "width"}:
+            ia = shared.alternatives(fi.node, int_if.test.args[0], [], at=int_if.test)
+            idx_x = ast.unparse(X(ia[0][0])) if len(ia) == 1 else idx
+            seen_neg = seen_pos = False
+            norm_ok = c_ok = True
+            for fld, off in (("bot", 0), ("top", 1)):
+                for v, cds in shared.alternatives(fi.node, kw[fld], list(path_conditions(fi.node, ctor[0])), at=ctor[0]):
+                    neg = None
+                    for t, pol in shared.resolved_conditions(fi.node, cds):
+                        if au.cmp_norm(X(t)) == au.cmp_norm(ast.parse(f"{idx_x} < 0", mode="eval").body):
+                            neg = pol
+                        elif au.cmp_norm(X(t)) == au.cmp_norm(ast.parse(f"{idx_x} >= 0", mode="eval").body):
+                            neg = not pol
+                    vx = X(v)
+                    if neg is True:
+                        seen_neg = True
+                        if not au.poly_eq(vx, ast.parse(f"{idx_x} + {W} + {off}", mode="eval").body):
+                            norm_ok = False
+                    else:
+                        seen_pos = seen_pos or neg is False
+                        if not au.poly_eq(vx, ast.parse(f"{idx_x} + {off}", mode="eval").body):
+                            (c_ok, norm_ok) = (False, norm_ok) if neg is False else (c_ok, False)
+            norm_ok = norm_ok and seen_neg
+            c_ok = c_ok and seen_pos and ast.unparse(kw["step"]) == "1" and ast.unparse(kw["width"]) == "1"
     R.check(norm_ok, r_int, key_of(fi, "int-negative-normalised"), fi.at(int_if),
             f"a negative index is normalised by adding the parent width `{W}`: {norm_ok}",
             why="negative indices select the wrong bit")
-    ctor = [c for c, _b in pat.find("SliceInner(*$_)", int_if)]
-    c_ok = False
-    if ctor:
-        kw = {k.arg: k.value for k in ctor[0].keywords}
-        c_ok = set(kw) >= {"top", "bot", "step", "width"} and au.poly_eq(kw["top"], ast.parse(f"{idx} + 1", mode="eval").body) and ast.unparse(kw["bot"]) == idx and ast.unparse(kw["step"]) == "1" and ast.unparse(kw["width"]) == "1"
     R.check(c_ok, r_int, key_of(fi, "int-result"), fi.at(int_if),
             "an integer index i yields (bot=i, top=i+1, step=1, width=1)" if c_ok else "an integer index does not yield (bot=i, top=i+1, step=1, width=1)",
             why="a single-bit slice has the wrong position or width")
@@ -201,14 +229,32 @@ def slice_inner(repo: Repo, R, prefix: str):
         # `last`, by value: start + (width - 1) * step — found among the locals or written in place
         LAST = ast.parse(f"{start} + (len(range({start}, {stop}, {step})) - 1) * {step}", mode="eval").body
 
+        class _RangeEnds(ast.NodeTransformer):
+            """On a non-empty range (the empty one has raised): range(a, b, c)[0] == a, range(a, b, c)[-1] == a + (len(range(a, b, c)) - 1) * c"""
+            def visit_Subscript(self, node):
+                self.generic_visit(node)
+                v = node.value
+                if isinstance(v, ast.Call) and isinstance(v.func, ast.Name) and v.func.id == "range" and len(v.args) == 3 and not v.keywords:
+                    k = ast.unparse(node.slice)
+                    a_, b_, c_ = (ast.unparse(x) for x in v.args)
+                    if k == "0":
+                        return v.args[0]
+                    if k == "-1":
+                        return ast.parse(f"{a_} + (len(range({a_}, {b_}, {c_})) - 1) * {c_}", mode="eval").body
+                return node
+
+        def N(e):
+            import copy as _c
+            return _RangeEnds().visit(_c.deepcopy(shared.prov(fi.node, e)))
+
         def is_last(e):
             try:
-                return au.poly_eq(shared.prov(fi.node, e), LAST)
+                return au.poly_eq(N(e), LAST)
             except Exception:
                 return False
 
         def is_start(e):
-            return ast.unparse(shared.prov(fi.node, e, depth=0)) == start or ast.unparse(e) == start
+            return ast.unparse(N(e)) == start or ast.unparse(shared.prov(fi.node, e, depth=0)) == start or ast.unparse(e) == start
 
         def plus1(e, what):
             # e == what + 1
@@ -279,11 +325,32 @@ def inner_properties(repo: Repo, R):
                 why="width/top/bot/step are computed by diverging code, or one reads another's field")
     g = repo.func(F_SLICE, "_get_inner")
     a = g.node.args.args[0].arg
-    memo = bool(pat.find(f"{a}._inner = $F({a})", g.node)) and bool(pat.find(f"{a}._inner is None", g.node))
     fi = _find_inner_fn(repo)
-    calls = [c for c, b in pat.find(f"{a}._inner = $F({a})", g.node) if ast.unparse(b["F"]) == fi.name]
-    R.check(memo and bool(calls), rule, key_of(g), g.site,
-            f"_get_inner computes `{fi.name}` once and memoises it in _inner" if memo and calls else "_get_inner does not memoise the single SliceInner computation",
+    from . import shared as _sh
+    want_call = f"{fi.name}({a})"
+    # (1) what is returned is the stored record, or the record computed now
+    rets_ok = True
+    n_ret = 0
+    for r in _sh.returns_of(g.node):
+        for v, _c in _sh.alternatives(g.node, r.value, path_conditions(g.node, r), at=r):
+            n_ret += 1
+            if ast.unparse(v) not in (f"{a}._inner", want_call):
+                rets_ok = False
+    # (2) the computed record is stored in _inner, and computed only when nothing is stored yet
+    stored = False
+    for st in au.walk_no_nested(g.node):
+        if isinstance(st, ast.Assign) and len(st.targets) == 1 and ast.unparse(st.targets[0]) == f"{a}._inner":
+            vals = {ast.unparse(v) for v, _c in _sh.alternatives(g.node, st.value, path_conditions(g.node, st), at=st)}
+            stored = stored or vals == {want_call}
+    only_when_empty = True
+    calls = [c for c in au.calls_in(g.node) if ast.unparse(c) == want_call]
+    for c in calls:
+        conds = _sh.resolved_conditions(g.node, path_conditions(g.node, c))
+        if _sh.conds_imply(conds, [(_sh.parse_cond(f"{a}._inner is None"), True)]) is not True:
+            only_when_empty = False
+    memo = rets_ok and n_ret > 0 and stored and bool(calls) and only_when_empty
+    R.check(memo, rule, key_of(g), g.site,
+            f"_get_inner computes `{fi.name}` once and memoises it in _inner" if memo else f"_get_inner does not memoise the single SliceInner computation (returns the stored or the fresh record: {rets_ok}; fresh record stored: {stored}; computed only while nothing is stored: {only_when_empty})",
             why="successive reads of a slice's fields can disagree")
 
 
@@ -318,9 +385,21 @@ def concat_width(repo: Repo, R):
     for c, b in hits:
         conds = path_conditions(fw.node, c)
         ok = any(pol and ast.unparse(t) == f"isinstance({arg}, Concat)" for t, pol in conds)
-    R.check(ok, rule, key_of(fw, "Concat"), fw.site,
-            "width(Concat) is the sum of the widths of its parts" if ok else "width(Concat) is not `sum(width(p) for p in conn.parts)`",
-            why="Concat(a, b) does not have len(a) + len(b) bits")
+    # ... and that sum, computed at the time of the question, is what every return of the Concat arm hands out
+    from . import shared as _sh
+    rets = [r for r in _sh.returns_of(fw.node) if any(pol and ast.unparse(t) == f"isinstance({arg}, Concat)" for t, pol in path_conditions(fw.node, r))]
+    fresh = bool(rets)
+    stale = ""
+    for r in rets:
+        for v, _c in _sh.alternatives(fw.node, r.value, path_conditions(fw.node, r), at=r):
+            if not any(pat.match(p_, v) is not None for p_ in (f"sum([width($P) for $P in {arg}.parts])", f"sum((width($P) for $P in {arg}.parts))")):
+                fresh = False
+                stale = ast.unparse(v)
+    stores = [ast.unparse(t) for n in au.walk_no_nested(fw.node) if isinstance(n, (ast.Assign, ast.AugAssign, ast.AnnAssign)) for t in (n.targets if isinstance(n, ast.Assign) else [n.target]) if isinstance(t, (ast.Attribute, ast.Subscript))]
+    R.check(ok and fresh and not stores, rule, key_of(fw, "Concat"), fw.site,
+            "width(Concat) is the sum of the widths of its parts, computed when asked" if ok and fresh and not stores else
+            (f"width(Concat) returns `{stale}`" if stale else "width(Concat) is not `sum(width(p) for p in conn.parts)`") + (f"; width() stores into {stores}" if stores else ""),
+            why="Concat(a, b) does not have len(a) + len(b) bits — or keeps the number it had when first asked, after a part's width has changed")
     # Signal / Slice arms return their own width
     for cls in ("Signal", "Slice"):
         ok2 = False
